@@ -178,6 +178,7 @@ static void ProcessFile(char const* FileName, LongWord Offset) {
     Byte     Buffer[MaxLineLen];
     Word*    WBuffer = (Word*)Buffer;
     LongWord ErgStart, ErgStop = 0xfffffffful, IntOffset = 0, MaxAdr, GroupLineLen;
+    LargeWord LastAdr;
     LongInt  NextPos;
     LongWord ValidSegs;
     Word     ErgLen = 0, ChkSum = 0, RecCnt, Gran, HSeg;
@@ -318,7 +319,17 @@ static void ProcessFile(char const* FileName, LongWord Offset) {
                    i.e. after -a and -R have been applied */
 
                 ErgStop = ErgStart + (ErgLen / Gran) - 1;
-                if (ErgStop > MaxAdr) {
+
+                /* the Intel formats (except INHX8L/H) hold byte addresses */
+
+                if ((MultiMode < 2)
+                    && ((ActFormat == eHexFormatIntel) || (ActFormat == eHexFormatIntel16)
+                        || (ActFormat == eHexFormatIntel32))) {
+                    LastAdr = ((LargeWord)ErgStart * Gran) + ErgLen - 1;
+                } else {
+                    LastAdr = ErgStop;
+                }
+                if (LastAdr > MaxAdr) {
                     errno = 0;
                     fprintf(stderr, " %s\n", getmessage(Num_ErrMsgAdrOverflow));
                     ChkIO(OutName);
